@@ -343,6 +343,8 @@ func argClass(c sim.Call, size int) string {
 			cls = append(cls, "byte-slice")
 		} else if v.T == "f64array" || v.T == "bytearray" {
 			cls = append(cls, "go-array")
+		} else if v.T == "time" || v.T == "*time" || v.T == "intkeymap" || v.T == "rawjson" || v.T == "bigint" || v.T == "timestruct" {
+			cls = append(cls, "own-json-encoding")
 		} else if strings.HasPrefix(v.T, "*") {
 			cls = append(cls, "pointer")
 		} else if v.T == "tagged" || v.T == "plain" {
